@@ -3,9 +3,9 @@
     Everything here is total, computable Gallina.  Entity ids, rows, lengths and
     capacities are [nat]; generations, masks and lock words are [N]; component
     payloads are [Z]. *)
-From stdpp Require Export base list numbers.
 From Coq Require Export NArith ZArith Lia.
 From RecordUpdate Require Export RecordUpdate.
+From stdpp Require Export base numbers list list_numbers.
 
 (** Entity handle: [ecs.Entity{id, gen}]. *)
 Record Entity := mkE { eid : nat; egen : N }.
